@@ -228,7 +228,7 @@ def summarise(records, tier, seed):
     cov = {
         "evaluations": ag["evaluations"],
         "distinct_nontrivial": len(ag["hashes"]),
-        "rule": "conditional/boolean/abs/floor/Mod table, rate-shape (Rush-Larsen linearisation) models, random models; batches of N in {1,2,7,64} columns chosen by the reference on different sides of the "
+        "rule": "conditional/boolean/abs/floor/Mod table, rate-shape (Rush-Larsen linearisation) models, random models, shape=multiple modules, and modules generated after the same model was translated with another shape option; batches of N in {1,2,7,64} columns chosen by the reference on different sides of the "
         "conditions, with scalar and with per-column t/parameters; evaluation = one batched call; non-trivial = >= 20 (name, column) entries compared with the single-column call and the batches "
         "contained more than one branch signature; distinct by structural hash",
         "samples": C.pick_samples(records),
